@@ -1,5 +1,6 @@
 import RxModel.Framing
 import RxModel.Event
+import RxModel.Csv
 /-!
 # The text operations `rxsci/framing/line.py` uses, and the effects of its closures
 
@@ -116,5 +117,15 @@ def toBytes (big : Bool) (p n : Nat) : BM (List Nat) :=
   if n < 256 ^ p then pure (Rx.toBytes big p n) else throw "OverflowError"
 def run {α} (m : BM α) (s : BSt) : Except Err α × BSt := (ExceptT.run m).run s
 end BM
+
+/-! the field values `csv.dump` receives, as Python sees them (`type(f)`, `str(f)`) -/
+/-- `type(f).__name__` -/
+def CsvField.pyType : CsvField → String
+  | .int _ => "int" | .float _ => "float" | .bool _ => "bool" | .str _ => "str" | .none => "NoneType"
+/-- `type(f) in [t1, …]` (`type(None)` is `NoneType`) -/
+def CsvField.pyTypeIn (f : CsvField) (ts : List String) : Bool := ts.contains f.pyType
+/-- `str(f)`: the decimal digits of an int, the repr text a float carries, `True` / `False`, the string itself, `None` -/
+def CsvField.pyStr : CsvField → List Char
+  | .int i => showInt i | .float t => t | .bool b => if b then "True".toList else "False".toList | .str s => s | .none => "None".toList
 
 end Rx
